@@ -311,6 +311,10 @@ class Interp(ExprMixin, CallMixin):
                 r = self.p.resolve_dotted_in(mi, d)
                 if r is not None and r[0] != "classattr":
                     return self._value_of_resolution(r, mi, name)
+                if r is None and isinstance(expr, ast.Name) and expr.id not in mi.bindings:
+                    import builtins
+                    if hasattr(builtins, expr.id):
+                        return self._value_of_resolution(None, mi, expr.id)
         if isinstance(expr, (ast.List, ast.Tuple)):
             try:
                 return TupleV([self.eval_static(mi, e, name) for e in expr.elts])
